@@ -461,7 +461,6 @@ def py_mod(a, b):
 class SInt:
     """Symbolic Python / numpy integer (mathematical)."""
     __slots__ = ("t", "dtype_")
-    __array_ufunc__ = None
     ndim = 0
     shape = ()
     size = 1
@@ -578,13 +577,18 @@ class SInt:
         return SymArr.from_scalar(self)[idx]
 
 
+def _scalar_array_ufunc(self, ufunc, method, *inputs, **kwargs):
+    from . import symnp
+    return symnp.dispatch_ufunc(ufunc, method, inputs, kwargs)
+
+
+SInt.__array_ufunc__ = _scalar_array_ufunc
 numbers.Number.register(SInt)
 numbers.Integral.register(SInt)
 
 
 class SBool:
     __slots__ = ("t",)
-    __array_ufunc__ = None
     ndim = 0
     shape = ()
     size = 1
@@ -655,6 +659,9 @@ class SBool:
             return self
         return SInt(as_int_term(self), dtype)
     def item(self): return self
+
+
+SBool.__array_ufunc__ = _scalar_array_ufunc
 
 
 # ---------------------------------------------------------------------------------------------
